@@ -208,6 +208,7 @@ class Inliner:
         known = set(known_funcs().get(self.modname, []))
         if not known:
             return 0  # no reference list for this module: nothing is "new"
+        self._shared_recursive_workers(known)
         for _ in range(3):  # helpers calling helpers
             quals = all_function_quals(self.tree)
             new = {q: v for q, v in quals.items() if q not in known and _eligible(v[0])}
@@ -227,6 +228,64 @@ class Inliner:
             for fn in self.touched:
                 renumber(fn)
         return self.count
+
+    def _shared_recursive_workers(self, known: Set[str]) -> None:
+        """`def m(self): W(self)` in several classes with one new module-level, self-recursive worker `W(x)` (`merge duplicated
+        methods into one function`): W's body goes back into each `m`, its recursive calls `W(e)` become `e.m()`."""
+        quals = all_function_quals(self.tree)
+        for q, (h, cls, outer) in list(quals.items()):
+            if q in known or cls is not None or outer is not None or not isinstance(h, ast.FunctionDef):
+                continue
+            ps = [a.arg for a in h.args.args]
+            if len(ps) != 1 or h.args.vararg or h.args.kwarg or h.args.kwonlyargs or h.decorator_list:
+                continue
+            rec = [c for c in ast.walk(h) if isinstance(c, ast.Call) and isinstance(c.func, ast.Name) and c.func.id == h.name]
+            if not rec or any(len(c.args) != 1 or c.keywords for c in rec):
+                continue
+            if any(isinstance(n, (ast.Return, ast.Yield, ast.YieldFrom, ast.FunctionDef, ast.Lambda)) and not (isinstance(n, ast.Return) and n.value is None)
+                   for n in ast.walk(h) if n is not h):
+                continue
+            wrappers = []
+            ok = True
+            for cq, (c, ccls, couter) in quals.items():
+                if c is h:
+                    continue
+                calls = [x for x in ast.walk(c) if isinstance(x, ast.Call) and isinstance(x.func, ast.Name) and x.func.id == h.name]
+                if not calls:
+                    continue
+                body = _body_wo_doc(c)
+                if ccls is None or couter is not None or len(body) != 1 or not (isinstance(body[0], ast.Expr) and body[0].value is calls[0]) \
+                        or len(calls) != 1 or ast.unparse(calls[0].args[0]) != "self":
+                    ok = False
+                    break
+                wrappers.append(c)
+            refs = [n for n in ast.walk(self.tree) if isinstance(n, ast.Name) and n.id == h.name]
+            if not ok or len(wrappers) < 2 or len({w.name for w in wrappers}) != 1 or len(refs) != len(rec) + len(wrappers):
+                continue
+            mname = wrappers[0].name
+            for w in wrappers:
+                body = copy.deepcopy(_body_wo_doc(h))
+
+                class T(ast.NodeTransformer):
+                    def visit_Call(s_, n):
+                        s_.generic_visit(n)
+                        if isinstance(n.func, ast.Name) and n.func.id == h.name:
+                            return ast.copy_location(ast.Call(func=ast.Attribute(value=n.args[0], attr=mname, ctx=ast.Load()), args=[], keywords=[]), n)
+                        return n
+
+                    def visit_Name(s_, n):
+                        if n.id == ps[0]:
+                            return ast.copy_location(ast.Name(id="self", ctx=n.ctx), n)
+                        return n
+                body = [T().visit(x) for x in body]
+                doc = [x for x in w.body if isinstance(x, ast.Expr) and isinstance(x.value, ast.Constant) and isinstance(x.value.value, str)][:1]
+                w.body = doc + body
+                self.count += 1
+                self.touched.append(w)
+            for parent in ast.walk(self.tree):
+                b = getattr(parent, "body", None)
+                if isinstance(b, list) and any(x is h for x in b):
+                    b[:] = [x for x in b if x is not h]
 
     def _drop_fully_inlined(self, known: Set[str]) -> None:
         """a new helper that is no longer referenced anywhere in the module has been absorbed by its callers: its own
